@@ -58,7 +58,7 @@ MUST_SUCCEED = {("iter-args", "parent"), ("iter-args", "elsewhere"), ("iter-args
 def plan(tier):
     shards = [{"kind": "layout", "ns": ns} for ns in NS_PATHS]
     shards += [{"kind": "names", "part": p, "parts": 8} for p in range(8)]
-    shards += [{"kind": "histories"}, {"kind": "twin-roots"}]
+    shards += [{"kind": "histories"}, {"kind": "twin-roots"}, {"kind": "cwd-histories"}, {"kind": "case-twins"}]
     shards += H.plan_shards(['nested-revisions'])
     return shards
 
@@ -113,6 +113,22 @@ HIST_OPS = [
 def cases(shard, tier):
     if shard.get("kind") == "call-histories":
         yield from H.cases_of(shard)
+        return
+    if shard["kind"] == "case-twins":
+        n = len(CASE_TWINS)
+        subsets = [list(c) for c in itertools.combinations(range(n), 2)] + [[0, 1, 2], [3, 4, 5, 6, 7], list(range(n))]
+        for sub in subsets:
+            for d in CASE_TWIN_DESIGNATIONS:
+                yield {"kind": "case-twins", "targets": sub, "designation": d}
+        return
+    if shard["kind"] == "cwd-histories":
+        n = len(CWD_OPS)
+        for i in range(n):
+            for j in range(n):
+                if CWD_OPS[i][1] != CWD_OPS[j][1]:
+                    yield {"kind": "cwd-history", "ops": [i, j]}
+                    if tier != "quick" or (i + j) % 5 == 0:
+                        yield {"kind": "cwd-history", "ops": [i, j, i]}
         return
     if shard["kind"] == "histories":
         n = len(HIST_OPS)
@@ -384,6 +400,101 @@ def check_history(case, R: engine.Acc):
         ws.remove(base)
 
 
+CWD_TREES = {
+    "wa": {"vendor/Status.1.0.dsdl": "uint8 a\n@sealed\n", "vendor/sub/7001.Thing.1.2.dsdl": "@sealed\n"},
+    "wb": {"vendor/Status.2.5.dsdl": "uint16 b\n@sealed\n", "vendor/other/Item.0.1.dsdl": "@sealed\n", "vendor/sub/Thing.1.2.dsdl": "uint8 t\n@sealed\n"},
+    "wc/deeper": {"vendor/Status.1.0.dsdl": "uint32 c\n@sealed\n"},
+}
+CWD_OPS = [(op, cwd, sp) for cwd in CWD_TREES for op in ("rn", "rf") for sp in ("path", "str", "dot")]
+
+
+def check_cwd_history(case, R: engine.Acc):
+    """The same RELATIVE designation under different working directories, in one process: what a relative path denotes is decided
+    when the call is made, not when the path was first seen."""
+    base = ws.fresh()
+    old = os.getcwd()
+    try:
+        for w, tree in CWD_TREES.items():
+            ws.write_tree(base, {"%s/%s" % (w, k): v for k, v in tree.items()})
+        done = []
+        for i in case["ops"]:
+            op, cwd, sp = CWD_OPS[i]
+            done.append(i)
+            os.chdir(base / cwd)
+            root = {"path": Path("vendor"), "str": "vendor", "dot": Path("./vendor")}[sp]
+            files = sorted(CWD_TREES[cwd])
+            try:
+                with engine.deadline(20):
+                    if op == "rn":
+                        res = pydsdl.read_namespace(root, [], allow_unregulated_fixed_port_id=True)
+                    else:
+                        files = files[:1]
+                        tg = files[0] if sp == "str" else Path(files[0])
+                        res, _t = pydsdl.read_files([tg], [root] if sp != "dot" else ["vendor"], [], allow_unregulated_fixed_port_id=True)
+            except Exception as ex:  # noqa
+                R.violation("history-call-raised:%s" % type(ex).__name__, "every call of the history succeeds", {**case, "ops": done}, observed=repr(ex)[:300])
+                return
+            exp = []
+            for f in files:
+                parts = Path(f).name.split(".")[:-1]
+                port = int(parts[0]) if len(parts) == 4 else None
+                short, ma, mi = parts[-3:]
+                exp.append({"full_name": ".".join(list(Path(f).parent.parts) + [short]), "version": [int(ma), int(mi)], "port": port, "source_file_path": "%s/%s" % (cwd, f), "source_file_path_to_root": "%s/vendor" % cwd})
+            got = sorted((identity(t, base) for t in res), key=lambda d: d["source_file_path"])
+            exp = sorted(exp, key=lambda d: d["source_file_path"])
+            if got != exp:
+                R.outcome("identity-wrong")
+                R.violation("identity-depends-on-earlier-working-directory", "a relative designation denotes the directory it names under the working directory of THIS call", {**case, "ops": done}, observed=got, expected=exp)
+                return
+        R.case(case, nontrivial=True, sample=(case["ops"] == [0, 7]))
+        R.outcome("history-ok")
+    finally:
+        os.chdir(old)
+        ws.remove(base)
+
+
+CASE_TWINS = ["sensor/Status.1.0.dsdl", "sensor/status.1.0.dsdl", "sensor/STATUS.1.0.dsdl", "Nav/6300.Fix.2.1.dsdl", "nav/6301.Fix.2.1.dsdl", "nav/Fix.1.0.dsdl", "nav/fix.1.0.dsdl", "NAV/Fix.1.0.dsdl"]
+CASE_TWIN_DESIGNATIONS = ["abs", "name", "rel", "inferred", "reversed", "str"]
+
+
+def check_case_twins(case, R: engine.Acc):
+    """Target files whose encoded names differ only by letter case are different files that encode different names: every one of
+    them comes back with its own identity (subsets of 2..all targets, every designation of the root)."""
+    base = ws.fresh()
+    old = os.getcwd()
+    try:
+        sel = [CASE_TWINS[i] for i in case["targets"]]
+        ws.write_tree(base, {"ws/acme/" + f: "uint8[%d] payload\n@sealed\n" % (i + 1) for i, f in enumerate(CASE_TWINS)})
+        os.chdir(base / "ws")
+        root = base / "ws" / "acme"
+        d = case["designation"]
+        targets, roots = {
+            "abs": ([root / f for f in sel], [root]), "name": ([root / f for f in sel], "acme"), "rel": ([Path("acme") / f for f in sel], [Path("acme")]),
+            "inferred": ([Path("acme") / f for f in sel], []), "reversed": ([root / f for f in reversed(sel)], [str(root)]), "str": (["acme/" + f for f in sel], ["acme"]),
+        }[d]
+        exp = []
+        for f in sel:
+            parts = Path(f).name.split(".")[:-1]
+            exp.append({"full_name": ".".join(["acme"] + list(Path(f).parent.parts) + [parts[-3]]), "version": [int(parts[-2]), int(parts[-1])], "port": int(parts[0]) if len(parts) == 4 else None,
+                        "source_file_path": "ws/acme/" + f, "source_file_path_to_root": "ws/acme"})
+        R.case(case, nontrivial=True, sample=(d == "name" and case["targets"] == [0, 1]))
+        try:
+            with engine.deadline(20):
+                res, _t = pydsdl.read_files(targets, roots, [], allow_unregulated_fixed_port_id=True)
+            got = [identity(t, base) for t in res]
+        except pydsdl.InvalidDefinitionError as ex:
+            got = ["rejected", type(ex).__name__]
+        key = lambda x: x["source_file_path"] if isinstance(x, dict) else str(x)  # noqa: E731
+        if sorted(got, key=key) != sorted(exp, key=key):
+            R.outcome("identity-wrong")
+            R.violation("identity-differs:case-twins", "every target file yields a type with the identity encoded in ITS path, also when the names of several targets differ only by letter case", case, observed=got, expected=exp)
+        else:
+            R.outcome("case-twins-ok")
+    finally:
+        os.chdir(old)
+        ws.remove(base)
+
+
 def check_twin_roots(case, R: engine.Acc):
     """A relative target that exists under several same-named roots: DSDLDefinition.from_first_in documents that the FIRST listed root
     under which the file is found is used; the identity must point back to that file and that root."""
@@ -438,6 +549,10 @@ def check_case(case, R):
         return check_history(case, R)
     if case["kind"] == "twin-roots":
         return check_twin_roots(case, R)
+    if case["kind"] == "case-twins":
+        return check_case_twins(case, R)
+    if case["kind"] == "cwd-history":
+        return check_cwd_history(case, R)
     if case["kind"] == "name":
         check_name(case, R)
     else:
